@@ -301,20 +301,18 @@ func C11(run *mon.Run) {
 			// crafted key for which a signature with a tiny s exists: pick k and s', solve for d.
 			// Then r||s' verifies and r||(s'+n) (which fits in 32 bytes) must not.
 			nm := func(d *big.Int) *big.Int { return new(big.Int).Sub(a.c.N, d) }
-			for _, sp := range []*big.Int{big.NewInt(1), big.NewInt(2), new(big.Int).Lsh(big.NewInt(1), 64), new(big.Int).SetBytes(mon.RandBytes(r, 12)), new(big.Int).Sub(new(big.Int).Sub(new(big.Int).Lsh(big.NewInt(1), 256), a.c.N), big.NewInt(1)),
-				// s just below the group order (and below it by 2^200, 2^223: between the orders of the two curves)
-				nm(big.NewInt(1)), nm(big.NewInt(2)), nm(new(big.Int).Lsh(big.NewInt(1), 200)), nm(new(big.Int).Lsh(big.NewInt(1), 223)), nm(new(big.Int).SetBytes(mon.RandBytes(r, 20)))} {
-				if sp.Sign() == 0 {
-					continue
+			craftS := func(sp *big.Int, kind string) {
+				if sp.Sign() <= 0 || sp.Cmp(a.c.N) >= 0 {
+					return
 				}
 				k := new(big.Int).Mod(new(big.Int).SetBytes(mon.RandBytes(r, 40)), a.c.N)
 				if k.Sign() == 0 {
-					continue
+					return
 				}
 				kg := a.c.C.Mul(a.c.G, k)
 				rr := new(big.Int).Mod(kg.X, a.c.N)
 				if rr.Sign() == 0 {
-					continue
+					return
 				}
 				e := a.c.HashToInt(digest)
 				dd := new(big.Int).Mul(sp, k)
@@ -322,18 +320,53 @@ func C11(run *mon.Run) {
 				dd.Mul(dd, new(big.Int).ModInverse(rr, a.c.N))
 				dd.Mod(dd, a.c.N)
 				if dd.Sign() == 0 {
-					continue
+					return
 				}
 				csk, err := crypto.DecodePrivateKey(a.alg, dd.FillBytes(make([]byte, 32)))
 				if err != nil {
-					continue
+					return
 				}
 				cq := a.c.Pub(dd)
-				judge("small-s", csk.PublicKey(), cq, a.c, msg, digest, ecSigBytes(rr, sp))
+				judge(kind, csk.PublicKey(), cq, a.c, msg, digest, ecSigBytes(rr, sp))
 				if over := new(big.Int).Add(sp, a.c.N); over.BitLen() <= 256 {
-					judge("small-s-plus-n", csk.PublicKey(), cq, a.c, msg, digest, ecSigBytes(rr, over))
+					judge(kind+"-plus-n", csk.PublicKey(), cq, a.c, msg, digest, ecSigBytes(rr, over))
 				}
-				judge("small-s-twin", csk.PublicKey(), cq, a.c, msg, digest, ecSigBytes(rr, new(big.Int).Sub(a.c.N, sp)))
+				judge(kind+"-twin", csk.PublicKey(), cq, a.c, msg, digest, ecSigBytes(rr, new(big.Int).Sub(a.c.N, sp)))
+				// the same shape as r: swap the roles (r' = s-shaped is not constructible in general; but the
+				// twin and the pair (r, s) exchanged are further strings the format check and Verify must agree on)
+				judge(kind+"-swapped", csk.PublicKey(), cq, a.c, msg, digest, ecSigBytes(sp, rr))
+			}
+			for _, sp := range []*big.Int{big.NewInt(1), big.NewInt(2), new(big.Int).Lsh(big.NewInt(1), 64), new(big.Int).SetBytes(mon.RandBytes(r, 12)), new(big.Int).Sub(new(big.Int).Sub(new(big.Int).Lsh(big.NewInt(1), 256), a.c.N), big.NewInt(1)),
+				// s just below the group order (and below it by 2^200, 2^223: between the orders of the two curves)
+				nm(big.NewInt(1)), nm(big.NewInt(2)), nm(new(big.Int).Lsh(big.NewInt(1), 200)), nm(new(big.Int).Lsh(big.NewInt(1), 223)), nm(new(big.Int).SetBytes(mon.RandBytes(r, 20)))} {
+				craftS(sp, "small-s")
+			}
+			// ... and for s of every byte shape (leading zero bytes followed by runs of 0xff, 2^k-1, 2^k, n-2^k):
+			// a comparison done on trimmed or left-aligned bytes instead of on the number shows
+			{
+				var shaped []*big.Int
+				for z := 1; z <= 5; z++ {
+					for _, ff := range []int{1, 4, 8, 15, 31 - z} {
+						b := mon.RandBytes(r, 32)
+						for i := 0; i < z; i++ {
+							b[i] = 0
+						}
+						for i := z; i < z+ff && i < 32; i++ {
+							b[i] = 0xff
+						}
+						shaped = append(shaped, new(big.Int).SetBytes(b))
+					}
+				}
+				for _, kb := range []uint{8, 16, 32, 64, 96, 128, 160, 192, 224, 240, 247, 248, 249, 255} {
+					p2 := new(big.Int).Lsh(big.NewInt(1), kb)
+					shaped = append(shaped, p2, new(big.Int).Sub(p2, big.NewInt(1)), nm(p2))
+				}
+				for i, sp := range shaped {
+					if run.Quick() && (i+bi)%3 != 0 {
+						continue
+					}
+					craftS(sp, "shaped-s")
+				}
 			}
 			if bi < 3 {
 				run.Sample(map[string]any{"curve": a.n, "hasher": nh.name, "key": keyKind, "sig": mon.Hex(libSig)})
